@@ -225,13 +225,23 @@ fn main() {
         }
         ["dg.decc", chunks] => {
             // the same datagram bytes as a non-contiguous Buf
-            let cs: Vec<Bytes> = chunks.split('.').map(|c| Bytes::from(unhex(c))).collect();
+            let cs: Vec<Bytes> = if *chunks == "-" { vec![] } else { chunks.split('.').map(|c| Bytes::from(unhex(c))).collect() };
             match Datagram::decode(ChunkBuf::new(cs)) {
                 Ok(d) => {
+                    // the payload is the buffer the decoder left behind: its chunks, boundaries included
                     let id = d.stream_id().into_inner();
                     let mut p = d.into_payload();
-                    let rest = p.copy_to_bytes(p.remaining());
-                    format!("ok {} {}", id, hex(&rest))
+                    let mut parts: Vec<String> = Vec::new();
+                    while p.has_remaining() {
+                        let c = p.chunk().to_vec();
+                        if c.is_empty() {
+                            parts.push("EMPTY-CHUNK".into());
+                            break;
+                        }
+                        parts.push(hex(&c));
+                        p.advance(c.len());
+                    }
+                    format!("ok {} {}", id, if parts.is_empty() { "-".to_string() } else { parts.join(".") })
                 }
                 Err(e) => format!("err {}", code_value(&format!("{:?}", e))),
             }
